@@ -209,4 +209,147 @@ theorem static_length_tree (ts : List Tree) (hok : Trees.okAll ts) (hc : Trees.c
   have h' : ((Trees.pair ts).enc s0).msg.length = Trees.stat ts 0 0 := by omega
   simp only [Dop.staticBitLen, Trees.static_eq, Option.map_some, h']
 
+/-! ### the side condition and the two views depend on the description only, not on the values filled in -/
+
+theorem Tree.fill_int_inv {o : Obj} {d : IVal} {kvs : List (String × PVal)} {t' : Tree}
+    (hf : (Tree.int o d).fill kvs = some t') : ∃ v, t' = .int o v := by
+  simp only [Tree.fill] at hf
+  cases hp : o.pick kvs with
+  | none => rw [hp] at hf; cases hf
+  | some v => rw [hp] at hf; exact ⟨v, (Option.some.inj hf).symm⟩
+
+theorem Tree.fill_const_inv {o : Obj} {c : IVal} {kvs : List (String × PVal)} {t' : Tree}
+    (hf : (Tree.const o c).fill kvs = some t') : t' = .const o c := by
+  simp only [Tree.fill] at hf
+  split at hf
+  · exact (Option.some.inj hf).symm
+  · split at hf
+    · exact (Option.some.inj hf).symm
+    · cases hf
+  · cases hf
+
+theorem Tree.fill_struct_inv {n : String} {bp : Option Nat} {kids : List Tree} {kvs : List (String × PVal)} {t' : Tree}
+    (hf : (Tree.struct n bp kids).fill kvs = some t') :
+    ∃ kvs' kids', lookupV n kvs = some (.dict kvs') ∧ Trees.fill kids kvs' = some kids' ∧ t' = .struct n bp kids' := by
+  simp only [Tree.fill] at hf
+  split at hf
+  · rename_i kvs' hl
+    split at hf
+    · cases hf
+    · cases hk : Trees.fill kids kvs' with
+      | none => rw [hk] at hf; cases hf
+      | some kids' => rw [hk] at hf; exact ⟨kvs', kids', hl, hk, (Option.some.inj hf).symm⟩
+  · cases hf
+
+theorem Trees.fill_cons_inv {t : Tree} {ts : List Tree} {kvs : List (String × PVal)} {ts' : List Tree}
+    (hf : Trees.fill (t :: ts) kvs = some ts') :
+    ∃ t' ts0, t.fill kvs = some t' ∧ Trees.fill ts kvs = some ts0 ∧ ts' = t' :: ts0 := by
+  simp only [Trees.fill] at hf
+  cases h1 : t.fill kvs with
+  | none => rw [h1] at hf; cases hf
+  | some t' =>
+    cases h2 : Trees.fill ts kvs with
+    | none => rw [h1, h2] at hf; cases hf
+    | some ts0 => rw [h1, h2] at hf; exact ⟨t', ts0, rfl, rfl, (Option.some.inj hf).symm⟩
+
+mutual
+theorem Tree.fill_shape : (t : Tree) → ∀ (kvs : List (String × PVal)) (t' : Tree), t.fill kvs = some t' →
+    t'.bytePos = t.bytePos ∧ t'.rend = t.rend ∧ t'.slen = t.slen ∧ t'.cursorOk = t.cursorOk
+  | .int o d, kvs, t', hf => by
+    obtain ⟨v, rfl⟩ := Tree.fill_int_inv hf
+    exact ⟨rfl, rfl, rfl, rfl⟩
+  | .const o c, kvs, t', hf => by
+    rw [Tree.fill_const_inv hf]
+    exact ⟨rfl, rfl, rfl, rfl⟩
+  | .struct n bp kids, kvs, t', hf => by
+    obtain ⟨kvs', kids', _, hk, rfl⟩ := Tree.fill_struct_inv hf
+    obtain ⟨h1, h2, h3, _, h5⟩ := Trees.fill_shape kids kvs' kids' hk
+    simp only [Tree.bytePos, Tree.rend, Tree.slen, Tree.cursorOk, h1, h2, h3, h5, true_and]
+theorem Trees.fill_shape : (ts : List Tree) → ∀ (kvs : List (String × PVal)) (ts' : List Tree), Trees.fill ts kvs = some ts' →
+    (∀ c, Trees.rcur ts' c = Trees.rcur ts c) ∧ (∀ c m, Trees.stat ts' c m = Trees.stat ts c m) ∧
+    Trees.cursorOk ts' = Trees.cursorOk ts ∧ Trees.headImplicit ts' = Trees.headImplicit ts ∧ ts'.isEmpty = ts.isEmpty
+  | [], kvs, ts', hf => by
+    simp only [Trees.fill, Option.some.injEq] at hf
+    subst hf
+    exact ⟨fun _ => rfl, fun _ _ => rfl, rfl, rfl, rfl⟩
+  | t :: ts, kvs, ts', hf => by
+    obtain ⟨t', ts0, h1, h2, rfl⟩ := Trees.fill_cons_inv hf
+    obtain ⟨a1, a2, a3, a4⟩ := Tree.fill_shape t kvs t' h1
+    obtain ⟨b1, b2, b3, b4, _⟩ := Trees.fill_shape ts kvs ts0 h2
+    refine ⟨?_, ?_, ?_, ?_, rfl⟩
+    · intro c; simp only [Trees.rcur, a1, a2, b1]
+    · intro c m; simp only [Trees.stat, a1, a3, b2]
+    · simp only [Trees.cursorOk, a2, a3, a4, b3, b4]
+    · simp only [Trees.headImplicit, a1]
+end
+
+/-- **C08 static length, struct tier, every accepted value**: whatever is supplied — if the strict encoder of the model
+    returns a PDU (overlap warning or not), the static bit length of the description is 8 × its length -/
+theorem static_length_struct (ts : List Tree) (hneed : Trees.need ts + 2 ≤ modelFuel) (hd : Trees.descOk ts)
+    (hc : Trees.cursorOk ts = true) (pv : PVal) (trig : Option Bytes) (pdu : Bytes) (w : Nat)
+    (henc : encodeMessage none (Trees.toParams ts) pv trig true = .ok (pdu, w)) :
+    (Dop.struct none (Trees.toParams ts)).staticBitLen = some (8 * pdu.length) := by
+  rcases encodeMessage_struct_cases ts hneed hd pv trig with ⟨_, e, hrun, _⟩ | ⟨kvs, ts', s0, _, hfill, _, hm, _, _, hcur, ho, hrun⟩
+  · rw [hrun] at henc; cases henc
+  · rw [hrun] at henc
+    simp only [Except.ok.injEq, Prod.mk.injEq] at henc
+    obtain ⟨hok, htp, _, _⟩ := Trees.fill_ok ts hd kvs ts' hfill
+    have hc' : Trees.cursorOk ts' = true := by rw [(Trees.fill_shape ts kvs ts' hfill).2.2.1]; exact hc
+    rw [← htp, ← henc.1]
+    exact static_length_tree ts' hok hc' s0 hm hcur ho
+
+/-! ### required parameters at every depth -/
+
+mutual
+/-- every required parameter — VALUE parameter without default: integer leaf or nested structure — is supplied, at
+    every depth (a value `None` counts as not supplied, as in `physical_value.get(name)`) -/
+def Tree.reqSupplied : Tree → List (String × PVal) → Bool
+  | .int o _, kvs => (lookupV o.name kvs).isSome
+  | .const _ _, _ => true
+  | .struct n _ kids, kvs =>
+    match lookupV n kvs with
+    | some (.dict kvs') => Trees.reqSupplied kids kvs'
+    | some _ => true                      -- supplied, but not a dictionary: rejected for another reason
+    | none => false
+def Trees.reqSupplied : List Tree → List (String × PVal) → Bool
+  | [], _ => true
+  | t :: ts, kvs => t.reqSupplied kvs && Trees.reqSupplied ts kvs
+end
+
+mutual
+theorem Tree.fill_req : (t : Tree) → ∀ (kvs : List (String × PVal)) (t' : Tree), t.fill kvs = some t' →
+    t.reqSupplied kvs = true
+  | .int o d, kvs, t', hf => by
+    rcases Tree.fill_kind (.int o d) kvs t' hf with ⟨_, _, _, pv, _, hl⟩ | ⟨_, _, _, _, h⟩
+    · simp only [Tree.name] at hl
+      simp only [Tree.reqSupplied, hl, Option.isSome_some]
+    · cases h
+  | .const o c, kvs, t', hf => rfl
+  | .struct n bp kids, kvs, t', hf => by
+    obtain ⟨kvs', kids', hl, hk, _⟩ := Tree.fill_struct_inv hf
+    simp only [Tree.reqSupplied, hl]
+    exact Trees.fill_req kids kvs' kids' hk
+theorem Trees.fill_req : (ts : List Tree) → ∀ (kvs : List (String × PVal)) (ts' : List Tree), Trees.fill ts kvs = some ts' →
+    Trees.reqSupplied ts kvs = true
+  | [], _, _, _ => rfl
+  | t :: ts, kvs, ts', hf => by
+    obtain ⟨t', ts0, h1, h2, _⟩ := Trees.fill_cons_inv hf
+    simp only [Trees.reqSupplied, Tree.fill_req t kvs t' h1, Trees.fill_req ts kvs ts0 h2, Bool.and_self]
+end
+
+/-- omitting a required parameter at any depth makes strict encoding fail, with a library error -/
+theorem required_struct_omission (ts : List Tree) (hneed : Trees.need ts + 2 ≤ modelFuel) (hd : Trees.descOk ts)
+    (kvs : List (String × PVal)) (trig : Option Bytes) (hreq : Trees.reqSupplied ts kvs = false) :
+    ∃ e, encodeMessage none (Trees.toParams ts) (.dict kvs) trig true = .error e ∧
+      (e = .encode ∨ e = .odx ∨ e = .unmodelled) := by
+  rcases encodeMessage_struct_cases ts hneed hd (.dict kvs) trig with ⟨_, e, hrun, he⟩ | ⟨kvs', ts', s0, hpv, hfill, _⟩
+  · refine ⟨e, hrun, ?_⟩
+    rcases he with (he | he) | ⟨he, _⟩
+    · exact Or.inl he
+    · exact Or.inr (Or.inl he)
+    · exact Or.inr (Or.inr he)
+  · cases hpv
+    rw [Trees.fill_req ts kvs ts' hfill] at hreq
+    cases hreq
+
 end OdxVerif.Codec
